@@ -216,7 +216,9 @@ func (sta *State) UsedRandomCleaner() {
 		time.Sleep(replayCacheAgeLimit)
 		sta.usedRandomM.Lock()
 		for key, t := range sta.UsedRandom {
-			if time.Unix(t, 0).Before(sta.WorldState.Now().Add(timestampTolerance)) {
+			// a packet registered at server time t embeds a timestamp below t+timestampTolerance and
+			// therefore stays acceptable until t+2*timestampTolerance; only older entries may go
+			if time.Unix(t, 0).Before(sta.WorldState.Now().Add(-2 * timestampTolerance)) {
 				delete(sta.UsedRandom, key)
 			}
 		}
